@@ -27,3 +27,23 @@ package native
 //@   ensures result >= 0 ==> (forall k int :: old(*p) <= k && k < result ==> isSpace((*s)[k]))
 //@   ensures result >= 0 ==> !isSpace((*s)[result])
 //@   ensures result < 0 ==> (0 <= *p && *p <= len(*s) + 4 && -10 <= result)
+
+// ---- dispatch wiring (C13): each slot of the function-pointer table is filled
+// with the same-named routine of ONE instruction-set package; both variants fill
+// the same set of slots; init selects by CPU feature.
+//@ pure func wiredSSE() bool = S_f64toa == sse.S_f64toa && S_f32toa == sse.S_f32toa && S_i64toa == sse.S_i64toa && S_u64toa == sse.S_u64toa && S_lspace == sse.S_lspace && S_quote == sse.S_quote && S_unquote == sse.S_unquote && S_value == sse.S_value && S_vstring == sse.S_vstring && S_vnumber == sse.S_vnumber && S_vsigned == sse.S_vsigned && S_vunsigned == sse.S_vunsigned && S_skip_one == sse.S_skip_one && S_skip_array == sse.S_skip_array && S_skip_object == sse.S_skip_object && S_skip_number == sse.S_skip_number && S_get_by_path == sse.S_get_by_path && __F64toa == sse.F_f64toa && __F32toa == sse.F_f32toa && __I64toa == sse.F_i64toa && __U64toa == sse.F_u64toa && __Quote == sse.F_quote && __Unquote == sse.F_unquote && __Value == sse.F_value && __SkipOne == sse.F_skip_one && __SkipOneFast == sse.F_skip_one_fast && __GetByPath == sse.F_get_by_path && __HTMLEscape == sse.F_html_escape && __ValidateOne == sse.F_validate_one && __ValidateUTF8 == sse.F_validate_utf8 && __ValidateUTF8Fast == sse.F_validate_utf8_fast && __ParseWithPadding == sse.F_parse_with_padding
+//@ pure func wiredAVX2() bool = S_f64toa == avx2.S_f64toa && S_f32toa == avx2.S_f32toa && S_i64toa == avx2.S_i64toa && S_u64toa == avx2.S_u64toa && S_lspace == avx2.S_lspace && S_quote == avx2.S_quote && S_unquote == avx2.S_unquote && S_value == avx2.S_value && S_vstring == avx2.S_vstring && S_vnumber == avx2.S_vnumber && S_vsigned == avx2.S_vsigned && S_vunsigned == avx2.S_vunsigned && S_skip_one == avx2.S_skip_one && S_skip_array == avx2.S_skip_array && S_skip_object == avx2.S_skip_object && S_skip_number == avx2.S_skip_number && S_get_by_path == avx2.S_get_by_path && __F64toa == avx2.F_f64toa && __F32toa == avx2.F_f32toa && __I64toa == avx2.F_i64toa && __U64toa == avx2.F_u64toa && __Quote == avx2.F_quote && __Unquote == avx2.F_unquote && __Value == avx2.F_value && __SkipOne == avx2.F_skip_one && __SkipOneFast == avx2.F_skip_one_fast && __GetByPath == avx2.F_get_by_path && __HTMLEscape == avx2.F_html_escape && __ValidateOne == avx2.F_validate_one && __ValidateUTF8 == avx2.F_validate_utf8 && __ValidateUTF8Fast == avx2.F_validate_utf8_fast && __ParseWithPadding == avx2.F_parse_with_padding
+
+//@ func useSSE props C13
+//@   modifies S_f64toa, S_f32toa, S_i64toa, S_u64toa, S_lspace, S_quote, S_unquote, S_value, S_vstring, S_vnumber, S_vsigned, S_vunsigned, S_skip_one, S_skip_array, S_skip_object, S_skip_number, S_get_by_path, __F64toa, __F32toa, __I64toa, __U64toa, __Quote, __Unquote, __Value, __SkipOne, __SkipOneFast, __GetByPath, __HTMLEscape, __ValidateOne, __ValidateUTF8, __ValidateUTF8Fast, __ParseWithPadding, globals(sse)
+//@   ensures wiredSSE()
+
+//@ func useAVX2 props C13
+//@   modifies S_f64toa, S_f32toa, S_i64toa, S_u64toa, S_lspace, S_quote, S_unquote, S_value, S_vstring, S_vnumber, S_vsigned, S_vunsigned, S_skip_one, S_skip_array, S_skip_object, S_skip_number, S_get_by_path, __F64toa, __F32toa, __I64toa, __U64toa, __Quote, __Unquote, __Value, __SkipOne, __SkipOneFast, __GetByPath, __HTMLEscape, __ValidateOne, __ValidateUTF8, __ValidateUTF8Fast, __ParseWithPadding, globals(avx2)
+//@   ensures wiredAVX2()
+
+//@ func init#1 props C13
+//@   modifies S_f64toa, S_f32toa, S_i64toa, S_u64toa, S_lspace, S_quote, S_unquote, S_value, S_vstring, S_vnumber, S_vsigned, S_vunsigned, S_skip_one, S_skip_array, S_skip_object, S_skip_number, S_get_by_path, __F64toa, __F32toa, __I64toa, __U64toa, __Quote, __Unquote, __Value, __SkipOne, __SkipOneFast, __GetByPath, __HTMLEscape, __ValidateOne, __ValidateUTF8, __ValidateUTF8Fast, __ParseWithPadding, globals(sse), globals(avx2)
+//@   panics_if !cpu.HasAVX2 && !cpu.HasSSE
+//@   ensures cpu.HasAVX2 ==> wiredAVX2()
+//@   ensures !cpu.HasAVX2 ==> (cpu.HasSSE && wiredSSE())
